@@ -15,17 +15,20 @@ def run(tier, seed, flavour="plain"):
     V.absorb(res)
     m = core.merge_summaries(res)
     types = {t: m["counters"].get("c17_types_" + t, 0) for t in ("float", "double", "long double")}
+    if min(m["counters"].get("c17_shape_component_probes_" + t, 0) for t in types) < 1:
+        V.inconclusive.append("the setter/accessor probes of the four value shapes did not run")
     if min(types.values()) < 92:
         V.inconclusive.append("fewer than 92 quantity types observed: %s" % types)
     V.coverage = {
         "evaluations": m["evaluations"], "distinct_nontrivial": m["distinct_nontrivial"],
         "rule": "all 92 quantity types x 3 numeric types (276 instantiations, exhaustive): five layout facts each; byte-pattern probes "
                 "(0xA5 fill, placement construction, every value byte of every slot must equal the stored number), memcpy of arrays "
-                "of quantities to arrays of numbers and back, Zero() value bytes, SetValue/MutableValue. distinct = (type, numeric type)",
+                "of quantities to arrays of numbers and back, Zero() value bytes, SetValue/MutableValue; for the four value shapes every named component setter and mutable reference (including the symmetric aliases yx, zx, zy) must write exactly the slot its accessor reads. distinct = (type, numeric type)",
         "samples": m["samples"], "exhaustive": True, "instantiations": types,
         "zero_checked": {t: m["counters"].get("c17_zero_" + t, 0) for t in types},
         "setvalue_probes": m["counters"].get("c17_setvalue_probes", 0), "mutablevalue_probes": m["counters"].get("c17_mutablevalue_probes", 0),
         "types_without_Zero": m["lists"].get("c17_types_without_Zero", []),
+        "shape_component_probes": {t: m["counters"].get("c17_shape_component_probes_" + t, 0) for t in types},
     }
     return V.finish()
 
